@@ -95,8 +95,9 @@ def model_variants(path, clsname, rng):
     cls = imp(path, clsname)
     out = []
     # hyperparameter dicts with different key sets (a poorer dict written over a richer one must not keep the extra keys)
-    hyps = [{"lam": 0.5, "k": 3, "burnin": 100, "S0": 2.5}, None, {"lam": 0.25}, {"k": 7, "nu": 4}]   # numeric values (a str value reads back as bytes: HDF5 strings, not asserted)
-    for t, named, hyper in ((1, True, 0), (2, True, 1), (2, False, 1), (1, True, 2), (1, False, 3)):
+    hyps = [{"lam": 0.5, "k": 3, "burnin": 100, "S0": 2.5}, None, {"lam": 0.25}, {"k": 7, "nu": 4},
+            {"lam": 0.5, "varcomp": np.array([0.5, 1.5, 2.0])}]      # a hyperparameter may be an array (mutable: a deep copy must own its copy)   # numeric values (a str value reads back as bytes: HDF5 strings, not asserted)
+    for t, named, hyper in ((1, True, 0), (2, True, 1), (2, False, 1), (1, True, 2), (1, False, 3), (2, True, 4)):
         p = rng.randrange(1, 5)
         kw = dict(beta=np.array([[rng.randrange(-5, 6) / 2.0 for _ in range(t)]]),
                   u_misc=None if rng.random() < 0.5 else np.array([[rng.randrange(-3, 4) / 4.0 for _ in range(t)] for _ in range(2)]),
@@ -273,6 +274,14 @@ def mutate_inplace(obj):
             except Exception:
                 pass
         elif isinstance(x, dict):
+            # mutable VALUES inside the dictionary are state too: edit them in place, then add a key
+            for k_, v_ in list(x.items()):
+                if isinstance(v_, np.ndarray) and v_.size and v_.dtype != object:
+                    v_[...] = v_ + 1
+                elif isinstance(v_, list):
+                    v_.append("MUTATED")
+                elif isinstance(v_, dict):
+                    v_["__mut__"] = 1
             x["__mut__"] = 1; n += 1
     return n
 
@@ -548,7 +557,7 @@ def run(ctx):
             for k in range(0, len(chain), 6):
                 hid += 1
                 hist.append(hdf5_history(hid, clsname, variants, rng, tmpdir, order=chain[k:k + 6]))
-            for o in variants[:(4 if thorough else 2)]:
+            for o in (variants[:(4 if thorough else 2)] + ([variants[-1]] if len(variants) > 2 else [])):
                 hid += 1
                 hist.append(copy_history(hid, clsname, o))
             for o in variants[:(3 if thorough else 1)]:
